@@ -87,7 +87,9 @@ func (h *scriptedHandler) NewIngester(ctx *transformctx.Ctx, input io.Reader) (s
 	return h.ing, nil
 }
 
-func observeErr(err error) (string, int) {
+// observeErr classifies an error of the scripted transform.  beforeAnyRead: the only error RawRecord can have before the
+// first Read is the "call Read first" error, whatever its wording.
+func observeErr(err error, beforeAnyRead bool) (string, int) {
 	switch {
 	case err == io.EOF:
 		return "eof", 0
@@ -99,7 +101,7 @@ func observeErr(err error) (string, int) {
 		return "fatal", 1
 	case err == fatalErrs[2]:
 		return "fatal", 2
-	case err != nil && err.Error() == "must call Read first":
+	case err != nil && beforeAnyRead:
 		return "mustread", 0
 	default:
 		return "other:" + fmt.Sprint(err), -1
@@ -127,13 +129,14 @@ func c01Replay(args []string) int {
 			return e
 		}
 		nontrivial := false
-		seenTerminal, lastFailed := false, false
+		seenTerminal, lastFailed, anyRead := false, false, false
 		for i, x := range c.Calls {
 			var got callExp
 			got.Op = x.Op
 			var pv string
 			p, _ := guarded(0, func() {
 				if x.Op == "Read" {
+					anyRead = true
 					b, err := tr.Read()
 					got.Nilb = b == nil
 					if err == nil {
@@ -142,7 +145,7 @@ func c01Replay(args []string) int {
 						json.Unmarshal(b, &m)
 						got.V = m.Rec
 					} else {
-						got.Class, got.V = observeErr(err)
+						got.Class, got.V = observeErr(err, false)
 					}
 				} else {
 					rr, err := tr.RawRecord()
@@ -153,7 +156,7 @@ func c01Replay(args []string) int {
 							got.V = v
 						}
 					} else {
-						got.Class, got.V = observeErr(err)
+						got.Class, got.V = observeErr(err, !anyRead)
 					}
 				}
 			})
@@ -293,7 +296,7 @@ func c01Drive(args []string) int {
 							e.V = idOf(fpIDs, rr.Checksum())
 						} else {
 							c := classify(err)
-							if err.Error() == "must call Read first" {
+							if nreads == 0 { // before any Read: the "call Read first" error, whatever its wording
 								c = "mustread"
 							} else if err != io.EOF {
 								e.V = idOf(errIDs, c+"|"+err.Error())
